@@ -33,7 +33,21 @@ def node_name(n):
         ln, n2 = tlvref.dec_var(last, n1)
         comps[-1] = last[:n1] + b'\xfd' + ln.to_bytes(2, 'big') + last[n1 + n2:]
         return tlvref.name_tlv(comps)
+    for suf, typ in ODD_TYPES.items():
+        if n.endswith(suf):
+            # a last component whose type number no name component may have (0, or above 65535)
+            comps = tlvref.name_from_uri('/node/' + n[:-len(suf)])
+            _t, n1 = tlvref.dec_var(comps[-1], 0)
+            comps[-1] = tlvref.enc_var(typ) + comps[-1][n1:]
+            return tlvref.name_tlv(comps)
     return tlvref.name_tlv(tlvref.name_from_uri('/node/' + n))
+
+
+ODD_TYPES = {'~t0': 0, '~big': 70000}
+
+
+def _odd(n):
+    return any(n.endswith(suf) for suf in ODD_TYPES)
 
 
 def node_key(n):
@@ -494,7 +508,8 @@ def classify_vector(rx, own_seq, selfname=None):
     vec = {}
     partial = False
     for n, s in rx['sv']:
-        if n is None or s is None:
+        if n is None or s is None or _odd(n):
+            # (a node id with a component type outside 1..65535 may be taken as a node or as a malformed entry)
             partial = True
             continue
         key = node_key(n)
@@ -597,6 +612,8 @@ def generate(rng, seed, tier='quick'):
         if sv and rng.random() < 0.06:
             k0 = rng.randrange(len(sv))
             sv[k0] = [sv[k0][0] + '~nm', sv[k0][1]]         # non-minimal encoding of that node's name
+        if sv and rng.random() < 0.05:
+            sv.insert(rng.randrange(len(sv) + 1), [rng.choice(nodes) + rng.choice(sorted(ODD_TYPES)), rng.randint(1, 5)])
         op = {'at': t, 'op': 'rx', 'nonce': nonce, 'sv': sv}
         if mode == 'overclaim':
             sv.insert(rng.randrange(len(sv) + 1), [SELF + ('~nm' if rng.random() < 0.4 else ''), model_local[SELF] + rng.randint(1, 3)])
